@@ -146,6 +146,8 @@ pub struct Peer {
     pub tls: Tls,
     pub acc: Vec<u8>,
     pub closed: bool,
+    /// frames that arrived during the handshake (sozu's connection-level WINDOW_UPDATE may be among them)
+    pub early: Vec<Fr>,
 }
 
 impl Peer {
@@ -164,7 +166,7 @@ impl Peer {
             conn.complete_io(&mut tcp).ok()?;
         }
         tcp.set_read_timeout(Some(Duration::from_millis(100))).ok()?;
-        Some(Peer { tls: rustls::StreamOwned::new(conn, tcp), acc: vec![], closed: false })
+        Some(Peer { tls: rustls::StreamOwned::new(conn, tcp), acc: vec![], closed: false, early: vec![] })
     }
 
     pub fn send(&mut self, bytes: &[u8]) -> bool {
@@ -210,6 +212,7 @@ impl Peer {
             f.iter().any(|x| x.t == T_SETTINGS && x.flags & 1 == 0) && f.iter().any(|x| x.t == T_SETTINGS && x.flags & 1 == 1)
         });
         let ok = fr.iter().any(|x| x.t == T_SETTINGS && x.flags & 1 == 0);
+        self.early = fr;
         ok && self.send(&frame(T_SETTINGS, 1, 0, &[]))
     }
 
